@@ -4,6 +4,7 @@ CONSTANTS
   MaxG = 5
   Dpbs = {4}
   ResizeSet = {1, 2, 3}
+  GdOnly = TRUE
   MaxSteps = 1
   DevTuneMasterOnly = FALSE
   DevFsckIgnoresFeatDiff = FALSE
